@@ -156,11 +156,43 @@ def run_config(pid, name, consts, invariants, actprops, workdir, obs_sample, rep
     res_file = os.path.join(workdir, name + ".result.json")
     obs_file = os.path.join(workdir, name + ".obs.ndjson")
     t0 = time.time()
-    p = subprocess.run([XH if K.get("binary") == "xh" else MH, "replay", paths_file, "--result", res_file, "--obs", obs_file, "--threads", str(threads or WORKERS),
-                        "--obs-sample", str(obs_sample)], capture_output=True, text=True)
-    if p.returncode != 0 or not os.path.exists(res_file):
-        sys.stderr.write(p.stdout[-2000:] + p.stderr[-4000:])
-        raise ToolError("replay harness failed on config %s" % name)
+    binary = XH if K.get("binary") == "xh" else MH
+    crashers = []
+    for attempt in range(12):
+        prog = os.path.join(workdir, name + ".progress")
+        if os.path.exists(prog):
+            os.remove(prog)
+        if os.path.exists(res_file):
+            os.remove(res_file)
+        cmd = [binary, "replay", paths_file, "--result", res_file, "--obs", obs_file, "--threads", str(threads or WORKERS),
+               "--obs-sample", str(obs_sample), "--progress", prog]
+        if crashers:
+            cmd += ["--skip", ",".join(str(c) for c in crashers)]
+        p = subprocess.run(cmd, capture_output=True, text=True)
+        if p.returncode == 0 and os.path.exists(res_file):
+            break
+        # The process died.  If the code under test took it down (a panic inside a destructor while another panic
+        # unwinds aborts the process) the paths in flight tell which behaviour did it: each is re-run alone.
+        started, ended = set(), set()
+        if os.path.exists(prog):
+            for line in open(prog):
+                tag, _, pid_ = line.strip().partition(" ")
+                (started if tag == "S" else ended).add(int(pid_))
+        new_crashers = []
+        for cand in sorted(started - ended):
+            q = subprocess.run([binary, "replay", paths_file, "--result", res_file + ".one", "--threads", "1", "--only", str(cand)],
+                               capture_output=True, text=True)
+            if q.returncode != 0:
+                new_crashers.append((cand, (q.stderr or "")[-600:]))
+        if not new_crashers:
+            sys.stderr.write(p.stdout[-2000:] + p.stderr[-4000:])
+            raise ToolError("replay harness failed on config %s" % name)
+        for cand, err in new_crashers:
+            log("[%s]   the process was aborted while executing path %d of config %s: %s" % (pid, cand, name, " ".join(err.split())[-300:]))
+            crashers.append(cand)
+    else:
+        raise ToolError("replay harness keeps dying on config %s" % name)
+    info["crash_ids"] = crashers
     rr = json.load(open(res_file))
     info.update({"replayed": rr["paths"], "conform": rr["conform"], "nonconform": rr["nonconform"], "hung": rr["hung"], "inconclusive": rr.get("inconclusive", 0),
                  "replay_s": round(time.time() - t0, 2), "first_divergences": rr["first_divergences"][:3],
@@ -279,6 +311,8 @@ def managed_check(pid, tier, seed):
     os.makedirs(workdir)
     uses_xh = spec.get("kind") in ("syncmgr",) or spec.get("xh")
     build_s = build_harness("xh" if uses_xh else "mh")
+    if spec.get("xh_too"):
+        build_s += build_harness("xh")
     infos = []
     violations = []   # (config, pred, run, i)
     for entry in spec["configs"][tier]:
@@ -311,6 +345,9 @@ def managed_check(pid, tier, seed):
                 if pred in preds:
                     for run, i in where:
                         violations.append((name, pred, run, i))
+            # a behaviour of the specification on which the code under test aborts the whole process
+            for cid in info.get("crash_ids", []):
+                violations.append((name, "process_abort", cid, 0))
     for rentry in spec.get("random", {}).get(tier, []):
         (name, rcfg, runs, steps) = rentry[:4]
         rkind = rentry[4] if len(rentry) > 4 else "managed"
